@@ -9,6 +9,7 @@ import Ntrip.Model.Range
 import Ntrip.Model.Queue
 import Ntrip.Model.Reader
 import Ntrip.Model.Report
+import Ntrip.Model.F64
 /-! Operations of the line protocol.  Every branch that rejects input answers `bad-op`
     (never a default value). -/
 namespace Driver
@@ -168,6 +169,13 @@ def handle : List String → String
       let ms := segmentT crc24q (newState T) (In.ofBytes r.1.forwarded)
       s!"stop={showStop r.2} fwd={toHex r.1.forwarded} msgs {ms.length}" ++ String.join (ms.map (fun m => s!" {m.typ}:{toHex m.raw}"))
     | _, _, _, _ => "bad-op"
+  | ["disp4", n] =>
+    match n.toInt? with
+    | some n =>
+      let v := F64.mul (F64.ofInt n) F64.c0001
+      let (neg, e, mant) := F64.ieee v
+      s!"f64 {neg} {e} {mant} {F64.render4 (F64.fixed4 v)}"
+    | none => "bad-op"
   | ["sanitise", h] =>
     match parseHex h with
     | some b => "text " ++ toHex ((sanitise (b.map (fun x => Char.ofNat x.toNat))).map (fun c => UInt8.ofNat c.toNat))
